@@ -179,7 +179,7 @@ func (g *ogen) failing() onode {
 		"{{ cat(\"a\", _) }}", "{{ cat(\"a\", \"b\", _) }}", "{{ add3(1, _, 2) }}", "{{ add3(1, 2) }}", "{{ add3(1, 2, 3, 4) }}", "{{ sa() }}", "{{ st.A() }}",
 		"{{ ident(n) }}", "{{ sa | nope }}", "{{ upper(ia, ia) }}", "{{ repeat(sa, sa) }}", "{{ len() }}", "{{ map(\"k\") }}", "{{ ints(3, 1) }}", "{{ li[sa] }}", "{{ m.k.x.y }}", "{{ -sa }}",
 		"{{ ia % zero }}", "{{ ia % 0.5 }}", "{{ ia % -0.25 }}", "{{ ia / \"0\" }}", "{{ ia % \"0\" }}", "{{ ia % t }}", "{{ ia / t }}", "{{ 1.5 % 0.9 }}", "{{ ia / (zero * ib) }}", "{{ n.x }}", "{{ li[-1] }}", "{{ sa[5:2] }}",
-		"{{ li[1:4] }}", "{{ li[:5] }}", "{{ ls[0:4] }}", "{{ len(li[:4]) }}", "{{ li[4:] }}", "{{range li[2:4]}}x{{end}}", "{{ li[3] }}", "{{ ls[3] }}"})
+		"{{ m[n] }}", "{{ st[n] }}", "{{ li[n] }}", "{{ ms[n].Name }}", "{{ m[st.I] }}", "{{ li[1:4] }}", "{{ li[:5] }}", "{{ ls[0:4] }}", "{{ len(li[:4]) }}", "{{ li[4:] }}", "{{range li[2:4]}}x{{end}}", "{{ li[3] }}", "{{ ls[3] }}"})
 	return onode{src: act, out: "", failOff: 0}
 }
 
